@@ -251,7 +251,7 @@ theorem C10_Nv_eq_dxdt {res : Res} {m0 : Content} {st st' : St} {D : List Table}
       ∃ c cache Di, withPars m0 p = .ok c ∧ createCache c = .ok cache ∧ D[i]? = some Di ∧
         ∀ (j : Nat) (r : Rat × Row), tbl[j]? = some r →
           ∃ full d, pointRow c r.1 r.2 = .ok full ∧
-            rhsFromArgs cache (omKeys c.vars) (("time", r.1) :: full) = .ok d ∧
+            rhsFromArgs cache (omKeys c.vars) ((("time", r.1) :: full) ++ c.data) = .ok d ∧
             Di[j]? = some (r.1, d) := by
   have hs := (getRhsV_spec (n := .none) (cc := false) wf hi h).1
   unfold specRhs at hs
@@ -289,8 +289,8 @@ theorem C10_Nv_eq_dxdt {res : Res} {m0 : Content} {st st' : St} {D : List Table}
     computed coefficients) — true when those are reported names or `time` -/
 theorem C10_rhs_row_is_core_rhs {c : Content} {cache : Cache} {t : Rat} {s full : Row} {dep : Env}
     (hc : createCache c = .ok cache) (hdep : getArgsEnv c cache s t = .ok dep)
-    (hagree : ∀ k ∈ rhsNames cache, Env.get (("time", t) :: full) k = Env.get dep k) :
-    rhsFromArgs cache (omKeys c.vars) (("time", t) :: full) = getRhsQ c (some s) t := by
+    (hagree : ∀ k ∈ rhsNames cache, Env.get ((("time", t) :: full) ++ c.data) k = Env.get dep k) :
+    rhsFromArgs cache (omKeys c.vars) ((("time", t) :: full) ++ c.data) = getRhsQ c (some s) t := by
   unfold getRhsQ
   simp only [bind, Except.bind, hc, resolveVars, Option.getD_some, hdep]
   exact rhsFromArgs_congr hagree
@@ -303,11 +303,15 @@ theorem C10_rhs_row_is_core_rhs {c : Content} {cache : Cache} {t : Rat} {s full 
 theorem C10_reported_derivative_is_core_derivative {c : Content} {cache : Cache} {t : Rat}
     {s full : Row} (hok : rhsNamesOkB c cache = true) (hc : createCache c = .ok cache)
     (hfull : pointRow c t s = .ok full) :
-    rhsFromArgs cache (omKeys c.vars) (("time", t) :: full) = getRhsQ c (some s) t := by
+    rhsFromArgs cache (omKeys c.vars) ((("time", t) :: full) ++ c.data) = getRhsQ c (some s) t := by
   cases hg : getArgsEnv c cache s t with
   | error e => simp [pointRow, hc, pointEnv, hg] at hfull
   | ok dep =>
-    exact C10_rhs_row_is_core_rhs hc hg (row_agrees (rhsNamesOk_of_B hok) hc hg hfull)
+    have hok' := rhsNamesOk_of_B hok
+    refine C10_rhs_row_is_core_rhs hc hg ?_
+    intro k hk
+    rw [get_append_of_not_key _ _ (hok'.notData k hk)]
+    exact row_agrees hok' hc hg hfull k hk
 
 /-- non-vacuity: the structural check holds for the witness model (which has a
     state-dependent computed coefficient) -/
